@@ -131,6 +131,8 @@ func genKey(goT string, rng *rand.Rand, bf uint) (interface{}, interface{}) {
 
 func genVal(vt string, rng *rand.Rand) interface{} {
 	switch vt {
+	case "nil":
+		return nil // a tree used as a set
 	case "int":
 		v := rng.Intn(1<<20) - 1000
 		return v
@@ -162,6 +164,11 @@ func zeroOf(t string) interface{} {
 // abstractOf converts the marshaled JSON of a scalar to its abstract image.
 func abstractOf(class string, raw []byte) (interface{}, error) {
 	switch class {
+	case "nil":
+		if string(raw) != "null" {
+			return 1, fmt.Errorf("not null")
+		}
+		return 0, nil
 	case "int":
 		v, err := strconv.ParseInt(string(raw), 10, 64)
 		return v, err
@@ -208,13 +215,20 @@ func formatFamily(seed int64, n int, out *json.Encoder) {
 	for c := 0; c < n; c++ {
 		goT := goTypes[c%len(goTypes)]
 		vt := []string{"int", "string", "bytes"}[rng.Intn(3)]
+		if c%7 == 3 {
+			vt = "nil"
+		}
 		nf := []string{"bin", "v1"}[(c/len(goTypes))%2]
 		bf := []uint{2, 3, 4, 16}[rng.Intn(4)]
 		st := newRecStore("fmt")
 		st.keepAll = true
 		o := nfOf(nf)
 		o.BranchFactor = bf
-		m, err := mast.NewRoot(&o).LoadMast(ctx, &mast.RemoteConfig{KeysLike: zeroOf(goT), ValuesLike: zeroOf(vt), StoreImmutablePartsWith: st})
+		fcfg := &mast.RemoteConfig{KeysLike: zeroOf(goT), ValuesLike: zeroOf(vt), StoreImmutablePartsWith: st}
+		if vt == "nil" {
+			fcfg.ValuesLike, fcfg.UnmarshalerUsesRegisteredTypes = nil, true
+		}
+		m, err := mast.NewRoot(&o).LoadMast(ctx, fcfg)
 		if err != nil {
 			panic(err)
 		}
